@@ -357,6 +357,85 @@ end
 
 end walk
 
+/-! ### the walk in the words of `collect_scans`: children first, then the subquery plans of the node's expressions -/
+
+section shape
+variable (dev : Dev) (full : String → Option (List String))
+
+theorem collectPs_append (a b : List Plan) (r : Req) :
+    collectPs dev full (a ++ b) r = collectPs dev full a r >>= collectPs dev full b := by
+  induction a generalizing r with
+  | nil => simp only [List.nil_append, collectPs]; rfl
+  | cons p ps ih =>
+    simp only [List.cons_append, collectPs, bind_assoc]
+    congr 1; funext r'; exact ih r'
+
+theorem collectEs_append (a b : List PExpr) (r : Req) :
+    collectEs dev full (a ++ b) r = collectEs dev full a r >>= collectEs dev full b := by
+  induction a generalizing r with
+  | nil => simp only [List.nil_append, collectEs]; rfl
+  | cons p ps ih =>
+    simp only [List.cons_append, collectEs, bind_assoc]
+    congr 1; funext r'; exact ih r'
+
+theorem collectEs_append_fun (a b : List PExpr) :
+    collectEs dev full (a ++ b) = fun r => collectEs dev full a r >>= collectEs dev full b :=
+  funext fun r => collectEs_append dev full a b r
+
+theorem collectPs_single (p : Plan) (r : Req) : collectPs dev full [p] r = collectP dev full p r := by
+  simp only [collectPs]
+  cases collectP dev full p r <;> rfl
+
+mutual
+/-- with the switch off, the expressions of a node contribute exactly their subquery plans -/
+theorem collectE_eq_subPlans (hs : dev.skipSubqueryPlans = false) : ∀ (e : PExpr) (r : Req),
+    collectE dev full e r = collectPs dev full (subPlans e) r
+  | .col _ _, r => by simp only [collectE, subPlans, collectPs]
+  | .lit _ _, r => by simp only [collectE, subPlans, collectPs]
+  | .op _ _ args, r => by simp only [collectE, subPlans]; exact collectEs_eq_subPlans hs args r
+  | .alias e _, r => by simp only [collectE, subPlans]; exact collectE_eq_subPlans hs e r
+  | .sub _ _ args p, r => by
+    simp only [collectE, subPlans, hs, Bool.false_eq_true, if_false, collectPs_append, collectEs_eq_subPlans hs args r]
+    congr 1; funext r'; exact (collectPs_single dev full p r').symm
+  | .star _, r => by simp only [collectE, subPlans, collectPs]
+theorem collectEs_eq_subPlans (hs : dev.skipSubqueryPlans = false) : ∀ (es : List PExpr) (r : Req),
+    collectEs dev full es r = collectPs dev full (subPlansL es) r
+  | [], r => by simp only [collectEs, subPlansL, collectPs]
+  | e :: es, r => by
+    simp only [collectEs, subPlansL, collectPs_append, collectE_eq_subPlans hs e r]
+    congr 1; funext r'; exact collectEs_eq_subPlans hs es r'
+end
+
+mutual
+/-- with the switch on (today's code), expressions contribute nothing -/
+theorem collectE_skip (hs : dev.skipSubqueryPlans = true) : ∀ (e : PExpr) (r : Req), collectE dev full e r = .ok r
+  | .col _ _, r => by simp only [collectE]
+  | .lit _ _, r => by simp only [collectE]
+  | .op _ _ args, r => by simp only [collectE]; exact collectEs_skip hs args r
+  | .alias e _, r => by simp only [collectE]; exact collectE_skip hs e r
+  | .sub _ _ args p, r => by simp only [collectE, collectEs_skip hs args r, hs, if_true]; rfl
+  | .star _, r => by simp only [collectE]
+theorem collectEs_skip (hs : dev.skipSubqueryPlans = true) : ∀ (es : List PExpr) (r : Req), collectEs dev full es r = .ok r
+  | [], r => by simp only [collectEs]
+  | e :: es, r => by simp only [collectEs, collectE_skip hs e r]; exact collectEs_skip hs es r
+end
+
+/-- **`collect` is `collect_scans`**: a node that is not a scan visits its `children`, then the subquery plans of
+    its own expressions (`nodeExprs`) -/
+theorem collectP_eq_children (p : Plan) (hp : ∀ t s pr f, p ≠ .scan t s pr f) (r : Req) :
+    collectP dev full p r = collectPs dev full (children p) r >>= collectEs dev full (nodeExprs p) := by
+  have ok_bind : ∀ (a : Req) (f : Req → Except String Req), ((Except.ok a : Except String Req) >>= f) = f a :=
+    fun _ _ => rfl
+  have bind_ok : ∀ (x : Except String Req), (x >>= fun a => (Except.ok a : Except String Req)) = x := by
+    intro x; cases x <;> rfl
+  cases p
+  case scan t s pr f => exact absurd rfl (hp t s pr f)
+  all_goals
+    simp only [collectP, children, nodeExprs, collectPs, collectEs, collectEs_append_fun, bind_assoc, ok_bind, bind_ok]
+  all_goals try rfl
+
+end shape
+
 /-! ### first-match resolution under dropping fields -/
 
 section rebind
